@@ -9,7 +9,7 @@ no phase that can raise follows a phase that writes.  Recognised top-level state
     self._props["updates"][...] += 1                                         -> PCount
     add_info = {}                                                            -> PInit
     for transform in transforms: <retrieve; call>                            -> PTransforms
-    indices = np.asarray(indices, dtype=np.int32)                            -> PIndices
+    indices = np.array(indices, dtype=np.int32)                              -> PIndices
     if len(indices) == 0: return add_info                                    -> PEmptyReturn
     for name, arr in new_data.items(): if len(arr) != len(indices): raise    -> PLenCheck
     if new_data.keys() != self._fields.keys(): raise                         -> PKeyCheck
@@ -80,8 +80,8 @@ def classify(st):
     if isinstance(st, ast.Assign) and len(st.targets) == 1 and isinstance(st.targets[0], ast.Name) and st.targets[0].id == "indices":
         # the indices are turned into an int32 array once, before anything is checked or written (a tuple would otherwise be read by
         # numpy as ONE multi-dimensional index in the occupancy bookkeeping and in the field writes)
-        if ast.unparse(st.value) != "np.asarray(indices, dtype=np.int32)":
-            _fail(st, "the indices are rebound to something other than np.asarray(indices, dtype=np.int32)")
+        if ast.unparse(st.value) != "np.array(indices, dtype=np.int32)":
+            _fail(st, "the indices are rebound to something other than a copy np.array(indices, dtype=np.int32)")
         return "PIndices"
     if isinstance(st, ast.Assign) and len(st.targets) == 1 and isinstance(st.targets[0], ast.Name) and not has_raise(st):
         if st.targets[0].id in ("new_data", "indices", "add_info"):
